@@ -9,6 +9,9 @@ package main
 // transaction; Get asks the buffer before storage; Commit releases the lock after ApplyBatch;
 // Rollback clears and releases; release* is guarded by a CAS on the has*Lock flag; ...).
 // A function that no longer exists is emitted as a comment so the comparison stops compiling.
+// TxFacts.v — facts about the transaction registry and manager that the Registry model (C17)
+// takes from the source on every run: the literal time limits (they are not named constants) and
+// whether GracefulShutdown closes its stop channel unguarded.
 
 import (
 	"fmt"
@@ -18,6 +21,7 @@ import (
 	"os"
 	"path/filepath"
 	"sort"
+	"go/constant"
 	"strings"
 )
 
@@ -153,6 +157,55 @@ func txActions(fd *ast.FuncDecl) []string {
 	}
 	walk(fd.Body)
 	return acts
+func findFunc(pi *pkgInfo, recv, name string) *ast.FuncDecl {
+	for _, f := range pi.files {
+		for _, d := range f.Decls {
+			fd, ok := d.(*ast.FuncDecl)
+			if !ok || fd.Name.Name != name {
+				continue
+			r := ""
+			if fd.Recv != nil && len(fd.Recv.List) == 1 {
+				t := fd.Recv.List[0].Type
+				if s, ok := t.(*ast.StarExpr); ok {
+					t = s.X
+				if id, ok := t.(*ast.Ident); ok {
+					r = id.Name
+			if r == recv {
+				return fd
+	return nil
+// value of a constant time.Duration expression in milliseconds
+func durMs(pi *pkgInfo, e ast.Expr) (string, bool) {
+	tv, ok := pi.info.Types[e]
+	if !ok || tv.Value == nil {
+		return "", false
+	v := constant.ToInt(tv.Value)
+	if v.Kind() != constant.Int {
+		return "", false
+	ms := constant.BinaryOp(v, token.QUO, constant.MakeInt64(1000000))
+	if constant.Sign(ms) < 0 {
+		return "", false
+	return ms.ExactString(), true
+// the value given to field `name` in the first composite literal of fd
+func litField(pi *pkgInfo, fd *ast.FuncDecl, name string) (string, bool) {
+	res, ok := "", false
+	ast.Inspect(fd, func(n ast.Node) bool {
+		cl, is := n.(*ast.CompositeLit)
+		if !is || ok {
+		for _, el := range cl.Elts {
+			if kv, is := el.(*ast.KeyValueExpr); is {
+				if id, is := kv.Key.(*ast.Ident); is && id.Name == name {
+					res, ok = durMs(pi, kv.Value)
+	return res, ok
+// the duration argument of the first call of pkg.fn inside fd
+func callDur(pi *pkgInfo, fd *ast.FuncDecl, pkg, fn string, arg int) (string, bool) {
+	res, ok := "", false
+	ast.Inspect(fd, func(n ast.Node) bool {
+		c, is := n.(*ast.CallExpr)
+		if !is || ok {
+		if se, is := c.Fun.(*ast.SelectorExpr); is && se.Sel.Name == fn {
+			if id, is := se.X.(*ast.Ident); is && id.Name == pkg && len(c.Args) > arg {
+				res, ok = durMs(pi, c.Args[arg])
+	return res, ok
 }
 
 func genTxFacts() (string, string) {
@@ -204,6 +257,69 @@ func genTxFacts() (string, string) {
 			q[i] = "\"" + a + "\""
 		}
 		fmt.Fprintf(&b, "Definition %s : list string :=\n  [%s].\n", f.coq, strings.Join(q, "; "))
+	b.WriteString("(* GENERATED by /verif/gofacts from pkg/transaction — do not edit.\n")
+	b.WriteString("   Literal time limits (milliseconds) and the shape of GracefulShutdown. A fact that can no\n")
+	b.WriteString("   longer be read off the source is emitted as a comment, so its users stop compiling. *)\n")
+	b.WriteString("From Coq Require Import NArith.\nOpen Scope N_scope.\n")
+	pi, err := load("pkg/transaction")
+		fmt.Fprintf(&b, "(* pkg/transaction not loadable: %v *)\n", err)
+	emit := func(coq, v string, ok bool, what string) {
+		if ok {
+			fmt.Fprintf(&b, "Definition %s : N := %s.  (* %s *)\n", coq, v, what)
+		} else {
+			fmt.Fprintf(&b, "(* %s: %s not found *)\n", coq, what)
+	if fd := findFunc(pi, "RegistryImpl", "Begin"); fd != nil {
+		v, ok := callDur(pi, fd, "context", "WithTimeout", 1)
+		emit("registry_begin_timeout_ms", v, ok, "RegistryImpl.Begin: context.WithTimeout(ctx, ...)")
+	} else {
+		b.WriteString("(* RegistryImpl.Begin not found *)\n")
+	if fd := findFunc(pi, "", "NewRegistry"); fd != nil {
+		v, ok := litField(pi, fd, "idleTxTTL")
+		emit("registry_default_idle_ms", v, ok, "NewRegistry: idleTxTTL")
+		v, ok = callDur(pi, fd, "time", "NewTicker", 0)
+		emit("registry_cleanup_period_ms", v, ok, "NewRegistry: time.NewTicker(...)")
+	} else {
+		b.WriteString("(* NewRegistry not found *)\n")
+	if fd := findFunc(pi, "", "NewManager"); fd != nil {
+		v, ok := litField(pi, fd, "readOnlyTxTTL")
+		emit("manager_ro_ttl_ms", v, ok, "NewManager: readOnlyTxTTL")
+		v, ok = litField(pi, fd, "readWriteTxTTL")
+		emit("manager_rw_ttl_ms", v, ok, "NewManager: readWriteTxTTL")
+	} else {
+		b.WriteString("(* NewManager not found *)\n")
+	// GracefulShutdown: is close(r.stopCleanup) a statement of the function body itself (runs on
+	// every call: the second call panics) or nested in something (sync.Once.Do, an if, a select)?
+	if fd := findFunc(pi, "RegistryImpl", "GracefulShutdown"); fd != nil && fd.Body != nil {
+		top, any := false, false
+		isClose := func(s ast.Stmt) bool {
+			es, ok := s.(*ast.ExprStmt)
+			if !ok {
+				return false
+			c, ok := es.X.(*ast.CallExpr)
+			if !ok {
+				return false
+			id, ok := c.Fun.(*ast.Ident)
+			if !ok || id.Name != "close" || len(c.Args) != 1 {
+				return false
+			se, ok := c.Args[0].(*ast.SelectorExpr)
+			return ok && se.Sel.Name == "stopCleanup"
+		for _, s := range fd.Body.List {
+			if isClose(s) {
+				top = true
+		ast.Inspect(fd.Body, func(n ast.Node) bool {
+			if s, ok := n.(ast.Stmt); ok && isClose(s) {
+				any = true
+			return true
+		})
+		switch {
+		case top:
+			b.WriteString("Definition registry_shutdown_close_guarded : bool := false.  (* close(r.stopCleanup) runs on every call *)\n")
+		case any:
+			b.WriteString("Definition registry_shutdown_close_guarded : bool := true.  (* close(r.stopCleanup) is nested in a guard *)\n")
+		default:
+			b.WriteString("Definition registry_shutdown_close_guarded : bool := true.  (* no close(r.stopCleanup) in GracefulShutdown *)\n")
+	} else {
+		b.WriteString("(* RegistryImpl.GracefulShutdown not found *)\n")
 	}
 	return "TxFacts.v", b.String()
 }
